@@ -572,6 +572,10 @@ def gen_actor_case(rng, name, props, logger=False):
                 ops.append({"op": "logcheck"})
             if logger and rng.random() < 0.08:
                 ops.append({"op": "log", "level": rng.choice(["trace", "debug", "info", "warn", "error", "audit"])})
+            if logger and rng.random() < 0.04:
+                # the logger is replaced while actors are alive: ids keep counting, the new filter applies
+                ops.append({"op": "setlogger", "sink": False,
+                            "levels": rng.choice([["open"], ["open", "warn"], ["trace", "open"], ["info"], ["debug", "audit", "open"]])})
             if logger and rng.random() < 0.05:
                 ops.append({"op": "logfilter", "levels": rng.choice([["open"], ["off"], ["info"], ["warn", "open"], ["audit"]])})
         now = tadd(now, rng.choice([[0, 0], [0, 1], [1, 0], [10, 5], [61, 0]]))
@@ -666,6 +670,31 @@ def gen_restakker_case(rng, name, props):
     return {"case": name, "props": props, "acyclic": False, "ops": ops1 + [{"op": "restakker"}] + ops2}
 
 
+def gen_deep_case(rng, name, props):
+    """Long chains of closures each submitting the next one while it runs
+    (hundreds of generations within one run), next to ordinary traffic."""
+    ops = []
+    now = [0, 0]
+    nid = 1
+    for _ in range(rng.randrange(1, 3)):
+        n = rng.choice([95, 99, 100, 101, 120, 150, 205, 260])
+        ops.append({"op": "chain", "n": n, "id0": nid, "via": rng.choice(["core", "deferrer", "mix"]),
+                    "q": rng.choice(["defer", "defer", "mix", "lazy"])})
+        nid += n
+        for _ in range(rng.randrange(0, 3)):
+            ops.append({"op": rng.choice(["defer", "lazy", "idle"]), "item": {"id": nid, "shape": rng.randrange(0, 35), "ops": []}})
+            nid += 1
+        now = tadd(now, rng.choice([[0, 0], [1, 0], [61, 0]]))
+        ops.append({"op": "run", "t": now, "idle": rng.random() < 0.5})
+    if rng.random() < 0.4:
+        ops.append({"op": "chain", "n": rng.choice([3, 120]), "id0": nid, "via": "core", "q": "defer"})
+        ops.append({"op": "drop_stakker"})
+    else:
+        now = tadd(now, [61, 0])
+        ops.append({"op": "run", "t": now, "idle": True})
+    return {"case": name, "props": props, "acyclic": True, "ops": ops}
+
+
 def gen_park_case(rng, name, props):
     """An application parks handles the runtime gave it in a thread-local of
     its own (created before the Stakker): they are dropped when the thread
@@ -691,6 +720,7 @@ FAMILIES = {
     "alog": lambda rng, name, props: gen_actor_case(rng, name, props, logger=True),
     "re": lambda rng, name, props: gen_restakker_case(rng, name, props),
     "park": gen_park_case,
+    "qdeep": gen_deep_case,
 }
 
 
